@@ -98,8 +98,14 @@ package scheduler
 //@   ensures [C04 is_running] r <==> any_running(g)
 //@   loop 0 invariant forall i int :: 0 <= i && i <= idx ==> status_at(g, i) != NodeStatusRunning
 
+// chk.fresh: the stop flag has been consulted and found clear since the last launch / execution began (C05: a stop
+// can arrive at any time from another goroutine; what the code can and must do is look again before every launch and
+// before every execution).
+//@ ghost chk.fresh bool
 //@ fn (*Scheduler).isCanceled(sc) (r)
 //@   props C04 C05 C01
+//@   modifies ghost chk.fresh
+//@   records chk.fresh = !r
 //@   ensures r <==> sc.canceled == 1
 
 //@ fn (*Scheduler).setCanceled(sc)
@@ -147,9 +153,10 @@ package scheduler
 //@      ite(iserr, StatusError, StatusSuccess))))
 
 //@ fn (*Scheduler).Status(sc, g) (s)
-//@   props C04
+//@   props C04 C05
 //@   requires nodes_wf(g)
-//@   ensures [C04 spec_status] s == spec_status(sc.canceled == 1, all_done_ok(g), g.startedAt != 0, any_running(g), sc.lastError != nil)
+//@   modifies ghost chk.fresh
+//@   ensures [C04,C05 spec_status] s == spec_status(sc.canceled == 1, all_done_ok(g), g.startedAt != 0, any_running(g), sc.lastError != nil)
 
 // ---------------------------------------------------------------------------------------------
 // The scheduling loop (role L) — sequential contracts; the rely/guarantee variant is further below.
@@ -327,7 +334,8 @@ package scheduler
 //@        (node.stdoutFile != nil && node.stdoutWriter != nil && bw_file(node.stdoutWriter) == node.stdoutFile)
 
 //@ fn (*Scheduler).execNode(sc, ctx, n) (err)
-//@   props C02 C03 C12
+//@   props C02 C03 C05 C12
+//@   records chk.fresh = false
 //@   requires [C12 executes_with_an_open_log] !sc.dry ==> n.logWriter != nil
 //@   modifies n.data.State.Error, n.data.Step.Command, n.data.Step.Args, n.cmd, n.cancelFunc, n.outputReader, n.outputWriter, heap(alloc), heap(elems(string)),
 //@            ghost nexec, ghost execfail, ghost dirty, ghost eff.exec, ghost eff.env, ghost eff.fs, ghost obs.run_calls, ghost obs.run_err, ghost outvar.stores, ghost outvar.key, ghost outvar.val, ghost env.key, ghost env.val, ghost obs.buf_string
@@ -389,8 +397,10 @@ package scheduler
 //@   requires [flipped_before_spawn] node.data.State.Status != NodeStatusNone
 //@   requires sc != nil
 //@   modifies *
-//@   spawn modifies ghost launch
-//@   spawn ensures launch == upd(old(launch), node, old(launch[node]) + 1)
+//@   spawn modifies ghost launch, ghost chk.fresh
+//@   spawn ensures launch == upd(old(launch), node, old(launch[node]) + 1) && !chk.fresh
+//@   assert before (*Scheduler).execNode [C05 stop_flag_is_consulted_before_every_execution] chk.fresh
+//@   ensures [C05 nothing_is_executed_once_the_stop_is_registered] old(sc.canceled) == 1 ==> (nexec == old(nexec) && eff.exec == old(eff.exec))
 //@   ensures [C03 at_most_one_execution] old(w_scope(sc, node)) ==>
 //@        (nexec == old(nexec) || nexec == upd(old(nexec), node, old(nexec[node]) + 1))
 //@   ensures [C03 one_setup_per_activation] old(!sc.dry) ==> nsetup == upd(old(nsetup), node, old(nsetup[node]) + 1)
@@ -417,6 +427,7 @@ package scheduler
 //@   ensures [C12 torn_down_after_last_execution] old(!sc.dry) ==> !dirty[node]
 //@   loop 0 invariant sc == old(sc) && node == old(node) && w_scope(sc, node) == old(w_scope(sc, node)) && sc.dry == old(sc.dry)
 //@   loop 0 invariant old(!sc.dry) ==> nsetup == upd(old(nsetup), node, old(nsetup[node]) + 1)
+//@   loop 0 invariant [stopped_before_start] old(sc.canceled) == 1 ==> (sc.canceled == 1 && nexec == old(nexec) && eff.exec == old(eff.exec))
 //@   loop 0 invariant [armed_while_dirty] old(!sc.dry) ==> (dirty[node] ==> !node.done)
 //@   loop 0 invariant [log_open_after_setup] old(!sc.dry) && setupSucceed ==> node.logWriter != nil
 //@   loop 0 invariant [a] old(w_scope(sc, node)) ==> nexec == old(nexec)
@@ -433,7 +444,7 @@ package scheduler
 //@            heap(elems(string)), heap(elems(dag.Condition)),
 //@            ghost launch, ghost hruns, ghost hlog, ghost nsetup, ghost nexec, ghost execfail, ghost dirty, ghost ntear,
 //@            ghost eff.exec, ghost eff.env, ghost eff.fs, ghost eff.condfail, ghost eff.waited,
-//@            ghost fs.*, ghost fw.*, ghost bw.*, ghost obs.exists*, ghost obs.stat*,
+//@            ghost fs.*, ghost fw.*, ghost bw.*, ghost obs.exists*, ghost obs.stat*, ghost chk.fresh,
 //@            ghost obs.run_calls, ghost obs.run_err, ghost outvar.stores, ghost outvar.key, ghost outvar.val, ghost env.key, ghost env.val, ghost obs.buf_string
 //@   records eff.sched = old(eff.sched) + 1
 //@   ensures [C03 scheduling_keeps_the_graph] nodes_wf(g) && graph_wf(g)
@@ -446,6 +457,8 @@ package scheduler
 //@   assert before (*Node).setStatus#1 [C15 below_limit]
 //@        sc.maxActiveRuns > 0 ==> count_running(g, len(g.nodes)) < sc.maxActiveRuns
 //@   assert before go [C05 not_canceled_at_launch] sc.canceled != 1
+//@   assert before context.WithTimeout [C05 run_deadline_is_the_configured_timeout] sc.timeout > 0 && arg1 == sc.timeout
+//@   assert before go [C05 stop_flag_is_consulted_before_every_launch] chk.fresh
 //@   assert before go [C01 launches_graph_node] arg0 == g.nodes[idx + 1]
 //@   loop 1 step [C02 precondition_failure_skips]
 //@        eff.condfail != iter(eff.condfail) ==>
@@ -461,10 +474,10 @@ package scheduler
 //@   assert before (*Scheduler).runHandlerNode [C04 handlers_after_wait] eff.waited > old(eff.waited)
 //@   assert before (*Scheduler).runHandlerNode [C04 handler_is_configured] arg2 != nil && arg2 == sc.handlers[h] && h == handlers[idx + 1]
 //@   assert before (*Scheduler).runHandlerNode [C11 handler_gets_outputs] arg2.data.Step.OutputVariables == g.outputVariables
-//@   loop 2 invariant [C04 handler_list_shape]
+//@   loop 2 invariant [C04,C05 handler_list_shape]
 //@        (len(handlers) == 1 || len(handlers) == 2) && handlers[len(handlers) - 1] == dag.HandlerOnExit &&
 //@        (len(handlers) == 2 ==> handlers[0] != dag.HandlerOnExit)
-//@   loop 2 invariant [C04 handler_matches_outcome]
+//@   loop 2 invariant [C04,C05 handler_matches_outcome]
 //@        idx == -1 ==> ((len(handlers) == 2 ==> handlers[0] == handler_for(outcome(sc, g))) &&
 //@                       (len(handlers) == 1 ==> (outcome(sc, g) == StatusNone || outcome(sc, g) == StatusRunning)))
 //@   loop 2 invariant [C04 handlers_run_in_order] hruns <= old(hruns) + idx + 1
@@ -790,3 +803,43 @@ package scheduler
 //@   loop 0 invariant forall i int :: 0 <= i && i <= idx ==>
 //@        (graph.nodes[i] == nodes[i] && has(graph.dict, nodes[i].id) && graph.dict[nodes[i].id] == nodes[i])
 //@   loop 0 invariant forall i int :: idx < i && i < len(nodes) ==> nodes[i].id == 0
+
+// ---------------------------------------------------------------------------------------------
+// Stop (C05).  A step is live when it has a process handle and is running, or was already told to stop (marked
+// canceled) but has not finished yet.  Every signal reaches every live step; nothing else.
+//@ pred live(n *Node) = n.cmd != nil && (n.data.State.Status == NodeStatusRunning ||
+//@      (n.data.State.Status == NodeStatusCancel && n.data.State.FinishedAt == 0))
+
+//@ fn (*Node).signal(n, sig, allowOverride)
+//@   props C05
+//@   modifies n.data.State.Status, ghost kill.count, ghost kill.exec, ghost kill.sig
+//@   ensures [C05 live_step_gets_the_stop_signal] old(live(n)) ==> (kill.count == old(kill.count) + 1 && kill.exec == n.cmd &&
+//@        ite(allowOverride && n.data.Step.SignalOnStop != "",
+//@            isType(kill.sig, "syscall.Signal") && asType(kill.sig, "syscall.Signal") == signal_num(n.data.Step.SignalOnStop), kill.sig == sig))
+//@   ensures [C05 only_live_steps_are_signalled] !old(live(n)) ==> kill.count == old(kill.count)
+//@   ensures [C05 signalled_running_step_is_marked_canceled] n.data.State.Status ==
+//@        ite(old(n.data.State.Status) == NodeStatusRunning, NodeStatusCancel, old(n.data.State.Status))
+
+// Scheduler.Signal: the stop is registered (canceled flag), and every step that does not repeat is handed the signal
+// (so every live one receives it, Node.signal); a repeating step is not signalled — it finishes its iteration and the
+// worker does not start another one (worker contract).  With a done channel it waits until nothing runs any more.
+//@ fn (*Scheduler).Signal(sc, g, sig, done, allowOverride)
+//@   props C05
+//@   requires nodes_wf(g)
+//@   modifies sc.canceled, heap(Node.data.State.Status), heap(alloc), ghost kill.count, ghost kill.exec, ghost kill.sig, ghost chk.fresh
+//@   ensures [C05 stop_is_registered] sc.canceled == 1
+//@   ensures [C05 signal_changes_running_to_canceled_only] forall i int :: 0 <= i && i < len(g.nodes) ==>
+//@        (g.nodes[i].data.State.Status == old(g.nodes[i].data.State.Status) ||
+//@         (old(g.nodes[i].data.State.Status) == NodeStatusRunning && g.nodes[i].data.State.Status == NodeStatusCancel && !g.nodes[i].data.Step.RepeatPolicy.Repeat))
+//@   ensures [C05 no_step_is_left_running_unsignalled] forall i int :: 0 <= i && i < len(g.nodes) && !g.nodes[i].data.Step.RepeatPolicy.Repeat ==>
+//@        g.nodes[i].data.State.Status != NodeStatusRunning
+//@   loop 0 invariant sc.canceled == 1
+//@   loop 0 invariant forall i int :: 0 <= i && i < len(g.nodes) ==>
+//@        (g.nodes[i].data.State.Status == old(g.nodes[i].data.State.Status) ||
+//@         (old(g.nodes[i].data.State.Status) == NodeStatusRunning && g.nodes[i].data.State.Status == NodeStatusCancel && !g.nodes[i].data.Step.RepeatPolicy.Repeat))
+//@   loop 0 invariant forall i int :: 0 <= i && i <= idx && !g.nodes[i].data.Step.RepeatPolicy.Repeat ==> g.nodes[i].data.State.Status != NodeStatusRunning
+//@   loop 0 step [C05 live_step_is_signalled_with_the_stop_signal] !g.nodes[idx].data.Step.RepeatPolicy.Repeat && iter(live(g.nodes[idx])) ==>
+//@        (kill.count == iter(kill.count) + 1 && kill.exec == g.nodes[idx].cmd &&
+//@         ite(allowOverride && g.nodes[idx].data.Step.SignalOnStop != "",
+//@             isType(kill.sig, "syscall.Signal") && asType(kill.sig, "syscall.Signal") == signal_num(g.nodes[idx].data.Step.SignalOnStop), kill.sig == sig))
+//@   loop 0 step [C05 repeating_step_is_not_signalled] g.nodes[idx].data.Step.RepeatPolicy.Repeat ==> kill.count == iter(kill.count)
